@@ -45,6 +45,8 @@ def spice_readable(spec):
     for c in spec["cells"]:
         if c["kind"] == "prim" and c["prim"] not in ("R", "C", "L", "Vcvs"):
             return False
+        if c.get("domain", "verif") != "verif":
+            return False  # two external modules of one name: the spice text cannot tell them apart
     return all(m.get("style", "proc") != "gen" for m in spec["modules"])
 
 
